@@ -163,7 +163,7 @@ func (d *detSet) classifyMapRange(f *ssa.Function, rng *ssa.Range) (class, why s
 			}
 		}
 	}
-	var appendsTo []ssa.Value // slices appended to with iteration-derived data
+	var appendsTo []ssa.Value       // slices appended to with iteration-derived data
 	builtBases := map[string]bool{} // containers (locals / fields) that receive the slices built in map order
 	var notes []string
 	onlyKeyed := true
